@@ -336,6 +336,55 @@ def mine_retcover(w):
     return rows
 
 
+def dead_index_tests(f):
+    """comparisons `i == BOUND` inside a loop whose index i never reaches BOUND:
+       for (i, _) in arr.chunks(R).enumerate()  with arr: [T; N]   and   i == N / R      (i <= N/R - 1 when R divides N, else i <= N/R and N/R is the partial chunk)
+       for i in 0..K                                              and   i == K
+    Yields (node, rendering)."""
+    from ..core import expr_str
+    out = []
+
+    def same(a, b):
+        return expr_str(peel(a)) == expr_str(peel(b))
+
+    for lp in [n for n in walk(f['body']) if n.get('k') == 'for']:
+        binds = pat_bindings(lp['pat'])
+        it = peel(lp['iter'])
+        bound = None          # (index local id, expression the index stays strictly below, rendered)
+        if it.get('k') == 'mcall' and it.get('m') == 'enumerate':
+            src = peel(it['recv'])
+            if src.get('k') == 'mcall' and src.get('m') in ('chunks', 'chunks_exact') and src.get('args'):
+                base_t = (peel(src['recv']).get('t') or '').lstrip('&').strip()
+                if base_t.startswith('[') and ';' in base_t:
+                    n_len = base_t.rsplit(';', 1)[1].rstrip(']').strip()
+                    idx = [b for b in binds if (b.get('t') or '') == 'usize']
+                    if idx:
+                        bound = (idx[0]['i'], ('div', n_len, src['args'][0]), f'{n_len} / {expr_str(peel(src["args"][0]))}')
+        elif it.get('k') == 'struct' and (it.get('p') or '').endswith('ops::range::Range') and len(binds) == 1:
+            fs = dict((nm, e) for nm, e in it.get('fs', []))
+            if 'start' in fs and 'end' in fs and peel(fs['start']).get('v') == 'i:0':
+                bound = (binds[0]['i'], ('expr', fs['end']), expr_str(peel(fs['end'])))
+        if not bound:
+            continue
+        for n in walk(lp['body']):
+            if n.get('k') != 'bin' or n.get('op') != '==':
+                continue
+            for a, b in ((n['a'], n['b']), (n['b'], n['a'])):
+                pa = peel(a)
+                if not (pa.get('k') == 'local' and pa.get('i') == bound[0]):
+                    continue
+                pb = peel(b)
+                hit = False
+                if bound[1][0] == 'div':
+                    if pb.get('k') == 'bin' and pb.get('op') == '/' and expr_str(peel(pb['a'])).rsplit('::', 1)[-1] == bound[1][1].rsplit('::', 1)[-1] and same(pb['b'], bound[1][2]):
+                        hit = True
+                else:
+                    hit = same(pb, bound[1][1])
+                if hit:
+                    out.append((n, f'{expr_str(n)[:60]} inside a loop whose index stays below {bound[2]}'))
+    return out
+
+
 def load_rules(name):
     p = os.path.join(facts.VERIF, 'rules', name)
     with open(p) as fh:
@@ -545,6 +594,17 @@ def run_d(ck, w, prop, floors):
                   f'{r["fn"]}: `{r["place"]}` was assigned in every arm of an if/else inside a loop ({r["sites"]} site(s)) and is now assigned in only some arms '
                   f'({have} symmetric site(s)): on the other arm the next iteration sees a stale value', hirq.fn_loc(f))
     ck.count(f'{P}.D9 places', len(rows9))
+    # ------------------------------------------------------------------ D12
+    ck.rule(f'{P}.D12', 'dead index tests: inside `for (i, _) in array.chunks(R).enumerate()` (array of N elements) or `for i in 0..K`, a branch guarded by '
+                        '`i == N / R` / `i == K` can never be taken: the special handling of the LAST element it was meant to select (e.g. zeroing the filler '
+                        'of the last chunk of a variable-length input) never runs')
+    nd = 0
+    for f in fns:
+        for node, what in dead_index_tests(f):
+            nd += 1
+            ck.bad(f'{P}.D12', f'{f["_nid"]}|{what[:50]}', f'{f["_nid"]}: `{what}`: the guarded branch is dead, the treatment reserved for the last element is '
+                   f'never applied', hirq.fn_loc(f, node))
+    ck.ok(f'{P}.D12', 'no-dead-index-test', f'{len(fns)} functions inspected, {nd} dead tests')
     # ------------------------------------------------------------------ D11
     from ..engines import ziplint
     ck.rule(f'{P}.D11', 'zip-truncated comparisons: an equality / identity decision taken over `a.iter().zip(b.iter()).all(..)` also compares the lengths of a and b '
